@@ -293,6 +293,31 @@ theorem implLoop_feet_in_domain (E : Evals K) (P : Params K) (period half tol : 
       obtain ⟨x, hx, rfl⟩ := hp
       exact sweep_feet_in_domain E P period half hr nodes state x hx
 
+/-- the end points after `k` sweeps of the exact iteration (`rnd = id`) -/
+def iterState (E : Evals K) (P : Params K) (period half : K) (nodes : List (K × K)) (k : ℕ) (state : List (K × K)) :
+    List (K × K) :=
+  (fun s => (sweep E P period half nodes s).1)^[k] state
+
+/-- if some sweep among the first `fuel` reports a norm ≤ tol, the loop returns -/
+theorem implLoop_isSome_of_small_norm (E : Evals K) (P : Params K) (period half tol : K) (nodes : List (K × K)) :
+    ∀ (fuel : ℕ) (state : List (K × K)) (cnt : ℕ) (norms : List K),
+      (∃ k, k < fuel ∧ (sweep E P period half nodes (iterState E P period half nodes k state)).2 ≤ tol) →
+      (implLoop E P period half tol id nodes fuel state cnt norms).isSome
+  | 0, _, _, _, ⟨k, hk, _⟩ => by omega
+  | fuel+1, state, cnt, norms, ⟨k, hk, hn⟩ => by
+    simp only [implLoop, id]
+    split_ifs with h
+    · cases k with
+      | zero => exact absurd hn (not_le.mpr h)
+      | succ k' =>
+        have hmap : (sweep E P period half nodes state).1.map (fun p => (p.1, p.2)) =
+            (sweep E P period half nodes state).1 := by simp
+        rw [hmap]
+        apply implLoop_isSome_of_small_norm E P period half tol nodes fuel
+        refine ⟨k', by omega, ?_⟩
+        simpa [iterState, Function.iterate_succ_apply] using hn
+    · simp
+
 end Pol
 
 /-! ### concrete instances over ℚ for the non-vacuity examples of Props/C12 -/
